@@ -16,6 +16,7 @@ Trace lines:
 -/
 import NV.Common.Proto
 import NV.C14.Model
+import NV.C14.Multi
 import NV.C14.Spec
 
 namespace NV.C14
@@ -81,6 +82,10 @@ def renderRes : Res → String
 
 def b01 (b : Bool) : String := if b then "1" else "0"
 
+/-- checksum the LPC side (harness/mudlib/c14/user.c) computes over the text handed to receive_snoop -/
+def snoopSum (d : List Byte) : Nat :=
+  (d.foldl (fun (acc : Nat × Nat) b => ((acc.1 + (acc.2 + 1) * b.toNat) % 65521, acc.2 + 1)) (0, 0)).1
+
 def render : Ev → String
   | .wbeg v d => s!"wbeg {if v then "v" else "m"} {renderHex d}"
   | .wend => "wend"
@@ -89,6 +94,7 @@ def render : Ev → String
   | .st w p c l d => s!"st {b01 w} {p} {c} {l} {b01 d}"
   | .stClosed => "st closed"
   | .dump bs => s!"dump {renderHex bs}"
+  | .snoop _ d => s!"snoop {d.length} {snoopSum d}"
   | .fault w => s!"crash {w}"
 
 def parseRes (t : String) : Option Res :=
@@ -116,6 +122,7 @@ def parseEv (line : String) : Ev :=
     | ["st", w, p, c, l, d] => do
       some (.st (← parseBool w) (← p.toNat?) (← c.toNat?) (← l.toNat?) (← parseBool d))
     | ["dump", h] => do some (.dump (← parseHex h))
+    | ["snoop", _, _] => some (.snoop 0 [])
     | _ => none
   match r with
   | some e => e
@@ -126,35 +133,120 @@ def isSt : Ev → Bool
   | .stClosed => true
   | _ => false
 
-/-- `runFrom`, except that the state line of operations marked `false` is not shown (the harness cannot print one
-between the add_message calls that setup_accepted_connection makes itself) -/
-def runShown (s : St) : List (Op × Bool) → List Ev
-  | [] => []
-  | (op, sh) :: rest =>
-    let r := step s op
-    (if sh then r.2 else r.2.filter (fun e => !isSt e)) ++ runShown r.1 rest
+/-- one parsed case line: the user it is addressed to and what to do -/
+inductive Act where
+  | connect (k : Nat) (kind : String)
+  | mop (m : MOp)
+  /-- an operation on every user, addressed (like every command) to user `k`, which therefore exists -/
+  | gmop (k : Nat) (m : MOp)
+  | user (k : Nat) (op : Op)
+  | none
 
-/-- PORT_TELNET connect: `add_message` of every negotiation string, then `flush_message` -/
-def telnetConnectOps : List (Op × Bool) :=
-  NV.Gen.C14.connectTelnet.map (fun m => (Op.write false (m.map UInt8.ofNat), false)) ++ [(Op.flush, true)]
+def splitUser (line : String) : Nat × List String :=
+  match toks line with
+  | t :: rest => if t.startsWith "@" then ((t.drop 1).toString.toNat?.getD 0, rest) else (1, t :: rest)
+  | [] => (1, [])
+
+def parseAct (line : String) : Option Act :=
+  let (k, ts) := splitUser line
+  if k < 1 ∨ k > 4 then none
+  else match ts with
+  | [] => some .none
+  | ["connect", kind] => if kind == "ascii" ∨ kind == "telnet" ∨ kind == "console" then some (.connect k kind) else none
+  | ["cycle"] => some (.gmop k (.all .cycle))
+  | ["wready"] => some (.gmop k (.all .wready))
+  | ["flushall"] => some (.gmop k (.all .flush))
+  | ["peerclose"] => some (.mop (.hangup k false))
+  | ["peerfin"] => some (.mop (.hangup k true))
+  | ["eflush"] => some (.user k .flush)
+  | ["snoop", j] => match j.toNat? with
+    | some j => if j < 1 ∨ j > 4 then none else some (.mop (.snoop k j))
+    | none => none
+  | ["unsnoop"] => some (.mop (.unsnoop k))
+  | _ =>
+    match parseOpLine (" ".intercalate ts) with
+    | some (some op) => some (.user k op)
+    | some none => some .none
+    | none => none
+
+/-- scripts queued (`sendres`) for users that do not exist yet -/
+abbrev Pend := List (Nat × List SendRes)
+
+def pendOf (p : Pend) (k : Nat) : List SendRes := (p.filter (·.1 == k)).flatMap (·.2)
+
+/-- the user exists from its first operation on (`connect` decides the kind, default ascii); a script queued before
+that is its initial script -/
+def ensure (w : World) (p : Pend) (k : Nat) (console : Bool) : World :=
+  let w := if w.length ≤ k then w ++ List.replicate (k + 1 - w.length) none else w
+  match getU w k with
+  | some _ => w
+  | none => setU w k (St.init (pendOf p k) console)
+
+def dropSt (es : List TEv) : List TEv := es.filter (fun e => !isSt e.2)
+
+def usersOf : MOp → List Nat
+  | .on k _ => [k]
+  | .hangup k _ => [k]
+  | .snoop k j => [k, j]
+  | .unsnoop k => [k]
+  | .all _ => []
+
+def runActs : World → Pend → List Act → List TEv
+  | _, _, [] => []
+  | w, p, a :: rest =>
+    match a with
+    | .none => runActs w p rest
+    | .connect k kind =>
+      if (getU w k).isSome then (k, Ev.fault "connect after the first operation") :: runActs w p rest
+      else
+        let w1 := ensure w p k (kind == "console")
+        if kind == "telnet" then
+          let neg := NV.Gen.C14.connectTelnet.map (fun m => MOp.on k (Op.write false (m.map UInt8.ofNat)))
+          let r := runM w1 neg
+          let r2 := stepM r.1 (.on k .flush)
+          dropSt r.2 ++ r2.2 ++ runActs r2.1 p rest
+        else runActs w1 p rest
+    | .user k op =>
+      match op, getU w k with
+      | .sendres rs, none => runActs w (p ++ [(k, rs)]) rest
+      | _, _ =>
+        let w1 := ensure w p k false
+        let r := stepM w1 (.on k op)
+        r.2 ++ runActs r.1 p rest
+    | .gmop k m =>
+      let w1 := ensure w p k false
+      let r := stepM w1 m
+      r.2 ++ runActs r.1 p rest
+    | .mop m =>
+      let w1 := (usersOf m).foldl (fun w k => ensure w p k false) w
+      let r := stepM w1 m
+      r.2 ++ runActs r.1 p rest
+
+def renderT (e : TEv) : String := s!"u{e.1} {render e.2}"
 
 def runModel (lines : List String) : List String :=
-  let parsed : List (String × Option (List (Op × Bool))) := lines.map fun l =>
-    match toks l with
-    | ["connect", "ascii"] => (l, some [])
-    | ["connect", "console"] => (l, some [])
-    | ["connect", "telnet"] => (l, some telnetConnectOps)
-    | _ => (l, (parseOpLine l).map fun o => match o with | some op => [(op, true)] | none => [])
+  let parsed := lines.map (fun l => (l, parseAct l))
   let bad := parsed.filter (fun p => p.2.isNone)
   if !bad.isEmpty then bad.map (fun p => s!"bad-line {p.1}")
-  else
-    let console := lines.any (fun l => toks l == ["connect", "console"])
-    let ops := (parsed.filterMap (fun p => p.2)).flatten
-    (runShown (St.init [] console) ops).map render
+  else (runActs [] [] (parsed.filterMap (·.2))).map renderT
 
+/-- implementation lines are tagged `u<k>`: every user's lines are judged on their own -/
 def runJudge (body : List String) : List String :=
   let (_input, impl) := splitJudge body
-  match judgeEv (impl.map parseEv) with
+  let tagged : List (Nat × String) := impl.map fun l =>
+    match toks l with
+    | t :: _ =>
+      if t.startsWith "u" then
+        match (t.drop 1).toString.toNat? with
+        | some k => (k, (l.trimAscii.toString.drop (t.length + 1)).toString)
+        | none => (0, l)
+      else (0, l)
+    | [] => (0, l)
+  let users := (tagged.map (·.1)).eraseDups
+  let vs := users.flatMap fun k =>
+    let evs := (tagged.filter (·.1 == k)).map (fun p => parseEv p.2)
+    (judgeEv evs).map (fun v => s!"{v} u{k}")
+  match vs with
   | [] => ["ok"]
   | vs => vs.map (fun v => s!"bad {v}")
 
